@@ -472,7 +472,10 @@ def load_nmeas_estimate(filename: AnyPath) -> Tuple[float, int, np.ndarray]:
     with open(filename, "r") as f:
         data = json.load(f)
 
-    frame_meas = convert_dict_to_array(data["frame_meas"])
+    # save_nmeas_estimate omits "frame_meas" when it was not given
+    frame_meas = (
+        convert_dict_to_array(data["frame_meas"]) if "frame_meas" in data else None
+    )
     K_coeff = data["K"]
     nterms = data["nterms"]
 
